@@ -79,34 +79,26 @@ def spec_parent(children_disp, dtype, ch_buf):
     return out
 
 
-def _cascade_child(q, base, fmt, depth, parallel):
-    try:
-        from toasty.pyramid import PyramidIO
-        from toasty.merge import cascade_images, averaging_merger
-        import toasty.par_util
-        toasty.par_util.SHOW_INFORMATIONAL_MESSAGES = False
-        pio = PyramidIO(base, default_format=fmt)
-        with warnings.catch_warnings():
-            warnings.simplefilter("ignore")
-            cascade_images(pio, depth, averaging_merger, parallel=parallel)
-        q.put("ok")
-    except BaseException as e:  # noqa
-        q.put(f"error: {type(e).__name__}: {e}")
+def _cascade_target(base, fmt, depth, parallel):
+    from toasty.pyramid import PyramidIO
+    from toasty.merge import cascade_images, averaging_merger
+    import toasty.par_util
+    toasty.par_util.SHOW_INFORMATIONAL_MESSAGES = False
+    pio = PyramidIO(base, default_format=fmt)
+    with warnings.catch_warnings():
+        warnings.simplefilter("ignore")
+        cascade_images(pio, depth, averaging_merger, parallel=parallel)
+    return "ok"
 
 
 def run_cascade(base, fmt, depth, parallel, timeout=120):
-    q = mp.Queue()
-    p = mp.Process(target=_cascade_child, args=(q, base, fmt, depth, parallel))
-    p.start()
-    p.join(timeout)
-    if p.is_alive():
-        p.kill()
-        p.join()
+    from .common import run_isolated
+    st, val = run_isolated(_cascade_target, (base, fmt, depth, parallel), timeout)
+    if st == "ok":
+        return "ok"
+    if st == "hang":
         return "hang"
-    try:
-        return q.get(timeout=2)
-    except Exception:
-        return f"died (exit code {p.exitcode})"
+    return f"error: {val}"
 
 
 def main():
